@@ -336,6 +336,11 @@ def answerWords (c : Cache) : List String → Cache × String
       | none => (c, answerWords0 ws)
 
 def answer (c : Cache) (line : String) : Cache × String :=
-  answerWords c ((line.trimAscii.toString.splitOn " ").filter (· ≠ ""))
+  let ws := (line.trimAscii.toString.splitOn " ").filter (· ≠ "")
+  -- `posmapsp k pool -`: the tables as built inside a rayon pool of `pool` threads — the expectation does not depend on it
+  let ws := match ws with
+    | ["posmapsp", k, _, hx] => ["posmaps", k, hx]
+    | _ => ws
+  answerWords c ws
 
 end KT.Driver
